@@ -30,7 +30,16 @@ import (
 )
 
 // parseHost parses the host part of the input string.
-func (p *parser) parseHost(u *Url, parser *parser, input string, isNotSpecial bool) (string, error) {
+func (p *parser) parseHost(u *Url, parser *parser, input string, isNotSpecial bool) (host string, err error) {
+	// The address-kind flags describe the host being parsed: clear them for the new host (the IPv4 and
+	// IPv6 parsers set them again) and keep the old ones if parsing fails and the host stays unchanged.
+	wasIPv4, wasIPv6 := u.isIPv4, u.isIPv6
+	u.isIPv4, u.isIPv6 = false, false
+	defer func() {
+		if err != nil {
+			u.isIPv4, u.isIPv6 = wasIPv4, wasIPv6
+		}
+	}()
 	if p.opts.preParseHostFunc != nil {
 		input = p.opts.preParseHostFunc(u, input)
 	}
